@@ -245,8 +245,11 @@ func TestC17(t *testing.T) {
 				return &fakeConn{}, nil
 			case "reject_noconfigs":
 				return nil, &tls.ECHRejectionError{}
-			default: // reject_twice
-				return nil, &tls.ECHRejectionError{RetryConfigList: retryList}
+			default: // reject_twice: every rejection carries retry configs, each time other ones
+				if n == 0 {
+					return nil, &tls.ECHRejectionError{RetryConfigList: retryList}
+				}
+				return nil, &tls.ECHRejectionError{RetryConfigList: []byte(fmt.Sprintf("RETRY-CONFIG-LIST-AFTER-%d", n))}
 			}
 		}
 		expKeys := map[string]bool{}
